@@ -1898,6 +1898,8 @@ def computer_expected(c):
         return 'normal' if v == 'normal' else dim(v)
     if fn == 'word_spacing':
         return '0' if v == 'normal' else str(computer_px(c, v))
+    if fn == 'tab_size':
+        return str(v) if isinstance(v, int) else dim(v)
     if c['border_style'] in ('none', 'hidden'):
         return '0'
     if isinstance(v, str):
@@ -1934,6 +1936,10 @@ def gen_computer_cases(rng, count):
             c.update(name=rng.choice(C_BW_NAMES), border_style=rng.choice(C_STYLES),
                      value=rng.choice(('thin', 'medium', 'thick', 3, ln(False), ln(False))))
         cases.append(c)
+    for _ in range(max(8, count // 8)):     # tab_size: a number of spaces (int) or a length
+        c = dict(own_fs=str(rng.randint(1, 40)), root_fs=str(rng.randint(1, 40)), is_root=rng.random() < 0.2,
+                 fn='tab_size', name='tab_size', value=rng.randint(0, 16) if rng.random() < 0.4 else ln(False))
+        cases.append(c)
     return cases
 
 
@@ -1956,7 +1962,7 @@ def run_computers(run, rng, thorough):
                      signature='c06-computer:%s' % c['fn'])
     run.count('computers-direct', len(cases), ['%s:%s' % (c['fn'], c['value']) for c in cases])
     run.stream_info('computers-direct', rule='gap, word_spacing, border_width (6 names x 10 border styles x keyword / '
-                    'int / length), border_radius called on a stub style with random lengths in the 7 absolute units, '
+                    'int / length), tab_size (int / length), border_radius called on a stub style with random lengths in the 7 absolute units, '
                     'em, rem, %; judged against the CSS reading in Python (the functions of gen/GenComputedGap.v)')
 
 
@@ -1965,7 +1971,7 @@ def check(run):
     thorough = run.tier == 'thorough'
     common.prove(run, 'C06', ['model/C06Judge.vo', 'proofs/C06_examples.vo', 'proofs/C06_gen_length.vo',
                                'proofs/C06_gen_font_size.vo', 'proofs/C06_gen_tuples.vo', 'proofs/C06_gen_gap.vo',
-                               'proofs/C06_gen_border_width.vo'])
+                               'proofs/C06_gen_border_width.vo', 'proofs/C06_gen_tab_size.vo'])
     run.trusted += ['Coq 8.16.1 kernel (coqc); vm_compute for the cases.v evaluation',
                     'cssselect2 / tinycss2 / tinyhtml5 (outside the repository): selector matching, specificity, '
                     'document parsing used by the reference cascade; cross-checked by an own matcher',
